@@ -10,6 +10,21 @@
 #include <shark/Algorithms/DirectSearch/RVEA.h>
 #endif
 #include <shark/ObjectiveFunctions/Benchmarks/ZDT1.h>
+#include <shark/ObjectiveFunctions/Benchmarks/Ellipsoid.h>
+#include <shark/Algorithms/DirectSearch/GridSearch.h>
+#include <shark/Algorithms/DirectSearch/Operators/Indicators/AdditiveEpsilonIndicator.h>
+#include <shark/Algorithms/DirectSearch/Operators/Indicators/CrowdingDistance.h>
+#include <shark/Algorithms/DirectSearch/Operators/Indicators/NSGA3Indicator.h>
+#include <shark/Algorithms/DirectSearch/Operators/Hypervolume/HypervolumeCalculator.h>
+#include <shark/Algorithms/DirectSearch/Operators/Hypervolume/HypervolumeContribution.h>
+#include <shark/Algorithms/DirectSearch/Operators/Mutation/BitflipMutator.h>
+#include <shark/Algorithms/DirectSearch/Operators/Recombination/UniformCrossover.h>
+#include <shark/Algorithms/DirectSearch/Operators/Recombination/PartiallyMappedCrossover.h>
+#include <shark/Statistics/Distributions/MultiNomialDistribution.h>
+#include <shark/Core/utility/KeyValuePair.h>
+#include <shark/Core/ResultSets.h>
+#include <shark/Core/Flags.h>
+#include <shark/LinAlg/Base.h>
 #include "common.hpp"
 #include "c18.hpp"
 #include <src/Algorithms/DirectSearch/Operators/Lattice.cpp>
@@ -72,5 +87,170 @@ std::string c18::runMoo(std::string const& label, bool binary){
 #else
 	if(base == "MOEAD" || base == "RVEA") return "obj " + label + " not-archivable";
 #endif
+	return "bad-op";
+}
+
+// ---- containers, result sets, operators, grid searches: classes that are serializable on their own --------------
+namespace {
+using c18::history; using c18::vecStr; using c18::matStr;
+std::vector<RealVector> front2d(int variant){
+	std::vector<RealVector> f;
+	double pts[5][2] = {{1, 9}, {2, 6}, {4, 5}, {6, 2}, {9, 1}};
+	for(std::size_t i = 0; i != 5; ++i){ RealVector p(2); p(0) = pts[i][0] + 0.25 * variant; p(1) = pts[i][1]; f.push_back(p); }
+	return f;
+}
+template<class GS, class Cfg> std::string gridHistory(std::string const& label, Cfg cfg, bool binary){
+	benchmarks::Ellipsoid f(2); f.init();
+	GS a, a2, b;
+	cfg(a, 0); cfg(a2, 1); cfg(b, 2);
+	RealVector s(2, 0.5);
+	a.init(f, s); a.step(f); a2.init(f, s); a2.step(f); a2.step(f); b.init(f, s);
+	auto beh = [&](GS& g){
+		std::string r = "best=" + vecStr(g.solution().point) + "=" + vh::exactDouble(g.solution().value);
+		GS c; c18::load(c18::bytes(g, false), c, false);      // continue on a copy made through an archive
+		c.step(f);
+		return r + " next=" + vecStr(c.solution().point) + "=" + vh::exactDouble(c.solution().value);
+	};
+	return history(label, a, a2, b, beh, binary);
+}
+}
+std::string c18::runMisc(std::string const& label, bool binary){
+	if(label == "compressed_vector"){
+#ifdef C18_HAVE_CVEC
+		typedef CompressedRealVector CV;
+		CV a(6), a2(9), b(3);
+		a.set_element(a.end(), 1, 2.5); a.set_element(a.end(), 4, -1.0);
+		a2.set_element(a2.end(), 0, 7.0); a2.set_element(a2.end(), 3, 0.5); a2.set_element(a2.end(), 8, 3.0);
+		b.set_element(b.end(), 2, 9.0);
+		auto beh = [](CV& v){
+			std::string s = "size=" + std::to_string(v.size()) + " nnz=" + std::to_string(v.nnz()) + " ";
+			for(auto it = v.begin(); it != v.end(); ++it) s += std::to_string(it.index()) + "=" + vh::exactDouble(*it) + ",";
+			RealVector d(v.size(), 1.0); s += " dot=" + vh::exactDouble(inner_prod(v, d));
+			return s;
+		};
+		return history(label, a, a2, b, beh, binary, false);
+#else
+		return "obj " + label + " not-archivable";
+#endif
+	}
+	// (remora::triangular_matrix: BLAS/triangular_matrix.hpp includes detail/matrix_proxy_classes.hpp, which does not exist —
+	//  the header cannot be compiled in this tree, so the class cannot be instantiated)
+	if(label == "cholesky_decomposition" || label == "symm_eigenvalue_decomposition"){
+		RealMatrix A(3, 3), A2(2, 2), B(1, 1, 4.0);
+		double va[3][3] = {{4, 2, 0}, {2, 5, 1}, {0, 1, 3}};
+		for(std::size_t i = 0; i != 3; ++i) for(std::size_t j = 0; j != 3; ++j) A(i,j) = va[i][j];
+		A2(0,0) = 9; A2(0,1) = A2(1,0) = 3; A2(1,1) = 5;
+		if(label == "cholesky_decomposition"){
+			typedef remora::cholesky_decomposition<RealMatrix> C;
+			C a(A), a2(A2), b(B);
+			auto beh = [](C& c){ RealVector r(c.lower_factor().size1(), 1.0); c.solve(r, remora::left()); return "L=" + matStr(c.lower_factor()) + " solve=" + vecStr(r); };
+			return history(label, a, a2, b, beh, binary);
+		}
+		typedef remora::symm_eigenvalue_decomposition<RealMatrix> E;
+		E a(A), a2(A2), b(B);
+		auto beh = [](E& e){ return "Q=" + matStr(e.Q()) + " D=" + vecStr(e.D()); };
+		return history(label, a, a2, b, beh, binary);
+	}
+	if(label == "KeyValuePair"){
+		typedef KeyValuePair<double, std::size_t> KV;
+		KV a(2.5, 7), a2(-1.0, 3), b(0.0, 0);
+		return history(label, a, a2, b, [](KV& k){ return vh::exactDouble(k.key) + ":" + std::to_string(k.value); }, binary);
+	}
+	if(label == "ResultSet" || label == "ValidatedSingleObjectiveResultSet"){
+		RealVector p(3); p(0) = 1; p(1) = -2.5; p(2) = 0.125; RealVector q(1, 4.0), e;
+		typedef SingleObjectiveResultSet<RealVector> R;
+		if(label == "ResultSet"){
+			R a(0.75, p), a2(-3.0, q), b(9.0, e);
+			return history(label, a, a2, b, [](R& r){ return vecStr(r.point) + "=" + vh::exactDouble(r.value); }, binary);
+		}
+		typedef ValidatedSingleObjectiveResultSet<RealVector> V;
+		V a(R(0.75, p), 0.5), a2(R(-3.0, q), 2.0), b(R(9.0, e), -1.0);
+		return history(label, a, a2, b, [](V& r){ return vecStr(r.point) + "=" + vh::exactDouble(r.value) + "/" + vh::exactDouble(r.validation); }, binary);
+	}
+	if(label == "TypedFlags"){
+		typedef TypedFlags<unsigned int> F;
+		F a, a2, b; a.set(1u); a.set(8u); a2.set(4u); b.setAll();
+		return history(label, a, a2, b, [](F& f){ std::string s; for(unsigned k = 1; k <= 16; k *= 2) s += f.test(k) ? "1" : "0"; return s; }, binary);
+	}
+	if(label == "MultiNomialDistribution"){
+		RealVector pa(4), pa2(2), pb(3);
+		pa(0) = 0.125; pa(1) = 0.5; pa(2) = 0.25; pa(3) = 0.125; pa2(0) = 0.75; pa2(1) = 0.25; pb(0) = pb(1) = 0.25; pb(2) = 0.5;
+		MultiNomialDistribution a(pa), a2(pa2), b(pb);
+		auto beh = [](MultiNomialDistribution& d){
+			random::rng_type rng; rng.seed(3);
+			std::string s = "p=" + vecStr(d.probabilities()) + " draws=";
+			for(std::size_t i = 0; i != 12; ++i) s += std::to_string(d(rng)) + ",";
+			return s;
+		};
+		return history(label, a, a2, b, beh, binary);
+	}
+	if(label == "AdditiveEpsilonIndicator" || label == "CrowdingDistance"){
+		// stateless operators (empty serialize): the round trip must leave them usable and must not disturb the stream
+		std::vector<RealVector> f = front2d(0);
+		if(label == "AdditiveEpsilonIndicator"){
+			AdditiveEpsilonIndicator a, a2, b;
+			return history(label, a, a2, b, [&](AdditiveEpsilonIndicator& i){ return std::to_string(i.leastContributor(f, f)); }, binary);
+		}
+		CrowdingDistance a, a2, b;
+		return history(label, a, a2, b, [&](CrowdingDistance& i){ return std::to_string(i.leastContributor(f, f)); }, binary);
+	}
+	if(label == "NSGA3Indicator"){
+		NSGA3Indicator a, a2, b;
+		a.setReferencePoints(front2d(0)); a2.setReferencePoints(front2d(2)); { std::vector<RealVector> z(1, RealVector(2, 1.0)); b.setReferencePoints(z); }
+		std::vector<RealVector> f = front2d(1);
+		auto beh = [&](NSGA3Indicator& i){
+			std::string s; for(std::size_t k: i.leastContributors(f, f, 3)) s += std::to_string(k) + ",";
+			return s;
+		};
+		return history(label, a, a2, b, beh, binary);
+	}
+	if(label == "HypervolumeCalculator" || label == "HypervolumeContribution"){
+		std::vector<RealVector> f = front2d(0); RealVector ref(2, 11.0);
+		if(label == "HypervolumeCalculator"){
+			HypervolumeCalculator a, a2, b;
+			a.approximationEpsilon() = 0.125; a.approximationDelta() = 0.25; a2.useApproximation(true); a2.approximationEpsilon() = 0.5; b.useApproximation(true); b.approximationDelta() = 0.75;
+			auto beh = [&](HypervolumeCalculator& h){ return "eps=" + vh::exactDouble(h.approximationEpsilon()) + " delta=" + vh::exactDouble(h.approximationDelta()) + " hv=" + vh::exactDouble(h(f, ref)); };
+			return history(label, a, a2, b, beh, binary);
+		}
+		HypervolumeContribution a, a2, b;
+		a.approximationEpsilon() = 0.125; a.approximationDelta() = 0.25; a2.useApproximation(true); a2.approximationEpsilon() = 0.5; b.useApproximation(true); b.approximationDelta() = 0.75;
+		auto beh = [&](HypervolumeContribution& h){
+			std::string s = "eps=" + vh::exactDouble(h.approximationEpsilon()) + " delta=" + vh::exactDouble(h.approximationDelta()) + " smallest=";
+			for(auto const& kv: h.smallest(f, 2, ref)) s += std::to_string(kv.value) + ":" + vh::exactDouble(kv.key) + ",";
+			return s;
+		};
+		return history(label, a, a2, b, beh, binary);
+	}
+	if(label == "BitflipMutator"){
+		BitflipMutator a, a2, b; a.m_mutationStrength = 0.125; a2.m_mutationStrength = 0.75; b.m_mutationStrength = 0.5;
+		return history(label, a, a2, b, [](BitflipMutator& m){ return vh::exactDouble(m.m_mutationStrength); }, binary);
+	}
+	if(label == "UniformCrossover-default"){
+		// the default constructor (mixing ratio 0.5, the documented default) must give a usable target object
+		try{ UniformCrossover c; return "obj " + label + " same"; }
+		catch(std::exception const& e){ return "obj " + label + " differs default-constructor-throws !oracle default-constructor-throws"; }
+	}
+	if(label == "UniformCrossover"){
+		// (setMixingRatio accepts [0.9, 1] only in this tree — F-C18-7 — so the probe stays inside that range)
+		UniformCrossover a(0.9375), a2(1.0), b(0.96875);
+		auto beh = [](UniformCrossover& c){
+			random::rng_type rng; rng.seed(5); RealVector m(6, 1.0), d(6, 2.0);
+			return vh::exactDouble(c.mixingRatio()) + " child=" + vecStr(c(rng, m, d));
+		};
+		return history(label, a, a2, b, beh, binary);
+	}
+	if(label == "PartiallyMappedCrossover"){
+		PartiallyMappedCrossover a, a2, b;
+		return history(label, a, a2, b, [](PartiallyMappedCrossover&){ return std::string("stateless"); }, binary);
+	}
+	if(label == "GridSearch")
+		return gridHistory<GridSearch>(label, [](GridSearch& g, int v){ if(v == 0) g.configure(2, -2.0, 2.0, 5); else if(v == 1) g.configure(-1.0, 3.0, 3, 0.5, 1.5, 4); else g.configure(2, 0.0, 1.0, 2); }, binary);
+	if(label == "NestedGridSearch")
+		return gridHistory<NestedGridSearch>(label, [](NestedGridSearch& g, int v){ g.configure(2, v == 0 ? -2.0 : -1.0, v == 2 ? 1.0 : 3.0); }, binary);
+	if(label == "PointSearch")
+		return gridHistory<PointSearch>(label, [](PointSearch& g, int v){
+			std::vector<RealVector> pts;
+			for(int i = 0; i != 3 + v; ++i){ RealVector p(2); p(0) = 0.5 * i - v; p(1) = 1.0 - 0.25 * i; pts.push_back(p); }
+			g.configure(pts); }, binary);
 	return "bad-op";
 }
